@@ -11,15 +11,26 @@ import (
 	"golang.org/x/tools/go/ssa"
 )
 
+// Part is one program point at which an obligation has to hold.
+type Part struct {
+	Prefix  int    // number of unit items asserted before this point
+	Goal    string // Bool term that must be valid under the prefix
+	Site    string
+	Witness []Wit
+}
+
+// Wit is a labelled term whose model value is useful for replaying a counterexample.
+type Wit struct{ Label, Term string }
+
+// Obligation: a named proof obligation; it holds iff every part holds. Names carry no site ordinals,
+// so they are stable when returns or call sites are added or removed.
 type Obligation struct {
 	Name   string
 	Class  string
 	Func   string
-	Prefix int    // number of unit items asserted before this obligation
-	Goal   string // Bool term that must be valid under the prefix
 	Src    string
 	Expect string // "valid" (default) or "sat" (vacuity cover: prefix ∧ Goal must be satisfiable)
-	Inputs []string
+	Parts  []Part
 }
 
 // Unit is the verification condition of one function.
@@ -123,6 +134,7 @@ type vcgen struct {
 	rangeMap   map[ssa.Value]ssa.Value
 	embIDs     map[string]int
 	inputs     []string
+	witness    []Wit
 
 	lockSnaps map[string]*State
 	closures  map[string]*ssa.MakeClosure
@@ -191,33 +203,42 @@ func (g *vcgen) assume(term string) {
 	}
 }
 
-func (g *vcgen) oblName(base string) string {
-	g.oblNames[base]++
-	if n := g.oblNames[base]; n > 1 {
-		return fmt.Sprintf("%s#%d", base, n)
+func (g *vcgen) findObl(name string) *Obligation {
+	for _, o := range g.u.Obls {
+		if o.Name == name {
+			return o
+		}
 	}
-	return base
+	return nil
 }
 
 // oblige records a proof obligation "pc => goal" at the current point, then assumes it.
-func (g *vcgen) oblige(class, detail, goal, src string) {
+func (g *vcgen) oblige(class, detail, goal, src string) { g.obligeAt(class, detail, "", goal, src) }
+
+func (g *vcgen) obligeAt(class, detail, site, goal, src string) {
 	name := g.u.Name + "/" + class
 	if detail != "" {
 		name += "(" + detail + ")"
 	}
-	name = g.oblName(name)
-	ob := &Obligation{Name: name, Class: class, Func: g.u.Name, Prefix: len(g.u.Items), Src: src,
-		Goal: fmt.Sprintf("(=> %s %s)", g.pc, goal), Inputs: g.inputs}
-	g.u.Obls = append(g.u.Obls, ob)
+	ob := g.findObl(name)
+	if ob == nil {
+		ob = &Obligation{Name: name, Class: class, Func: g.u.Name, Src: src}
+		g.u.Obls = append(g.u.Obls, ob)
+	}
+	ob.Parts = append(ob.Parts, Part{Prefix: len(g.u.Items), Goal: fmt.Sprintf("(=> %s %s)", g.pc, goal), Site: site,
+		Witness: append([]Wit(nil), g.witness...)})
 	g.assume(goal)
 }
 
 // cover records a vacuity guard: pc ∧ cond must be satisfiable.
 func (g *vcgen) cover(detail, cond string) {
-	name := g.oblName(g.u.Name + "/vacuity(" + detail + ")")
-	g.u.Obls = append(g.u.Obls, &Obligation{Name: name, Class: "vacuity", Func: g.u.Name, Prefix: len(g.u.Items),
-		Goal: fmt.Sprintf("(and %s %s)", g.pc, cond), Expect: "sat"})
+	name := g.u.Name + "/vacuity(" + detail + ")"
+	ob := &Obligation{Name: name, Class: "vacuity", Func: g.u.Name, Expect: "sat"}
+	ob.Parts = []Part{{Prefix: len(g.u.Items), Goal: fmt.Sprintf("(and %s %s)", g.pc, cond)}}
+	g.u.Obls = append(g.u.Obls, ob)
 }
+
+func (g *vcgen) addWitness(label, term string) { g.witness = append(g.witness, Wit{label, term}) }
 
 // ---- state variables (heap arrays, ghost variables) ----
 
